@@ -484,6 +484,18 @@ func genCase(r *Rng, extreme bool) Input {
 		}
 		in.Votes = append(in.Votes, vt)
 	}
+	if extreme && r.Chance(1, 2) && len(in.Votes) > 0 {
+		// a whole pair voted near the largest Dec: median + spread would leave the Dec range
+		p := activePairs[r.Intn(len(activePairs))]
+		l := decLimit()
+		for vi := range in.Votes {
+			for ti := range in.Votes[vi].T {
+				if in.Votes[vi].T[ti].P == p && bigOf(in.Votes[vi].T[ti].R).Sign() > 0 {
+					in.Votes[vi].T[ti].R = []string{l.String(), new(big.Int).Sub(l, big.NewInt(1)).String(), mulFrac(l, 2, 3).String(), mulFrac(l, 9, 10).String()}[r.Intn(4)]
+				}
+			}
+		}
+	}
 	// pre-existing rates around the expiry boundary
 	for p := 0; p < nPairs; p++ {
 		if !r.Chance(1, 2) {
